@@ -2,6 +2,7 @@ package main
 
 import (
 	"fmt"
+	"math"
 	"sort"
 	"strings"
 	"time"
@@ -95,6 +96,8 @@ func casGen(r *simrt.RNG, tier string) interface{} {
 	p.ToggleFF = r.Bool(0.15)
 	p.NKinds = 2 + r.Intn(5)
 	widePrio := r.Bool(0.3) // many distinct priority levels active at once
+	// "all priority assignments": also numbers whose difference does not fit an int
+	extremePrio := r.Bool(0.08)
 	if r.Bool(0.25) {
 		p.Scopes = []map[string]bool{{"": true, "s": false}, {"s": true}, {"": true, "s.t": false, "v": false}}[:1+r.Intn(3)]
 	}
@@ -120,6 +123,9 @@ func casGen(r *simrt.RNG, tier string) interface{} {
 			}
 			if r.Bool(0.2) {
 				ru.Prio = r.Intn(7) - 3 // any integer orders rules, also negative ones
+			}
+			if extremePrio && r.Bool(0.7) {
+				ru.Prio = []int{math.MinInt64, math.MaxInt64, -1, 0, 1, math.MaxInt64 - 1, math.MinInt64 + 1}[r.Intn(7)]
 			}
 			nr++
 			ru.Fail = r.Bool(0.25)
